@@ -43,6 +43,7 @@ StepVerdict ==
    IF ~delivered THEN <<>>
    ELSE IF k > Len(d.toks) THEN Mismatch("tokens.extra", [spec |-> TokView(Delivered(r.tok, vLine, vPs.ms))])
    ELSE IF ~SameTok(Delivered(r.tok, vLine, vPs.ms), d.toks[k]) THEN Mismatch("tokens.fields", [spec |-> TokView(Delivered(r.tok, vLine, vPs.ms)), impl |-> d.toks[k]])
+   ELSE IF d.listing # <<>> /\ FormatToken(Delivered(r.tok, vLine, vPs.ms)) # d.listing[k] THEN Mismatch("listing", [spec |-> FormatToken(Delivered(r.tok, vLine, vPs.ms)), impl |-> d.listing[k]])
    ELSE IF Table[vPs.st][r.hit].prods # d.events[k] THEN Mismatch("events", [spec |-> Table[vPs.st][r.hit].prods, impl |-> d.events[k]])
    ELSE <<>>
 
@@ -77,6 +78,8 @@ ImplProps ==
    LET d == Docs[vTid]  ok == d.ok = 1  pk == ok /\ d.compiled = 1  dk == DialectInForce(d.lines, d.dialect)
        ix == Index(d.ast)  eps == EPs(d.ast, d.uri) IN
    [ c01_outcome  |-> P_C01_Outcome(d.errs, CapOf(d.mode)) /\ (ok <=> d.errs = <<>>),
+     c02_derivation |-> ok => P_C02_Derivation(d.toks, d.events),
+     c02_tagowner |-> ok => P_C02_TagOwner(d.ast, ix),
      c03_once     |-> ok => P_C03_Once(d.toks, d.ast, ix),
      c03_order    |-> ok => P_C03_Order(d.ast, ix),
      c03_text     |-> ok => P_C03_Text(d.lines, d.ast, ix),
